@@ -73,8 +73,10 @@ func populate(t *rapid.T, label string, msg protoreflect.Message, o *PopOpts, de
 					k = protoreflect.ValueOfString(o.Text.Draw(t, l+".k")).MapKey()
 				case protoreflect.Int32Kind, protoreflect.Sint32Kind, protoreflect.Sfixed32Kind:
 					k = protoreflect.ValueOfInt32(int32(rapid.IntRange(0, o.KeyRange).Draw(t, l+".k"))).MapKey()
-				case protoreflect.Int64Kind:
+				case protoreflect.Int64Kind, protoreflect.Sint64Kind, protoreflect.Sfixed64Kind:
 					k = protoreflect.ValueOfInt64(int64(rapid.IntRange(0, o.KeyRange).Draw(t, l+".k"))).MapKey()
+				case protoreflect.Uint64Kind, protoreflect.Fixed64Kind:
+					k = protoreflect.ValueOfUint64(uint64(rapid.IntRange(0, o.KeyRange).Draw(t, l+".k"))).MapKey()
 				case protoreflect.BoolKind:
 					k = protoreflect.ValueOfBool(rapid.Bool().Draw(t, l+".k")).MapKey()
 				default:
@@ -158,7 +160,7 @@ func scalar(t *rapid.T, l string, fd protoreflect.FieldDescriptor, o *PopOpts) p
 	case protoreflect.BytesKind:
 		return protoreflect.ValueOfBytes(rapid.SliceOfN(rapid.Byte(), 0, 4).Draw(t, l))
 	}
-	panic("unhandled kind " + fd.Kind().String())
+	panic("HARNESS-SELFTEST unhandled kind " + fd.Kind().String())
 }
 
 // GenNodeAttrs draws a node with the given id and an independent random subset of all other Node
@@ -222,9 +224,21 @@ func Leaves(msg protoreflect.Message, prefix string) []Leaf {
 				mm := msg.Mutable(fdc).Map()
 				for n := int32(100); ; n++ {
 					var k protoreflect.MapKey
-					if fdc.MapKey().Kind() == protoreflect.StringKind {
+					switch fdc.MapKey().Kind() {
+					case protoreflect.StringKind:
 						k = protoreflect.ValueOfString(fmt.Sprintf("k%d", n)).MapKey()
-					} else {
+					case protoreflect.Int64Kind, protoreflect.Sint64Kind, protoreflect.Sfixed64Kind:
+						k = protoreflect.ValueOfInt64(int64(n)).MapKey()
+					case protoreflect.Uint32Kind, protoreflect.Fixed32Kind:
+						k = protoreflect.ValueOfUint32(uint32(n)).MapKey()
+					case protoreflect.Uint64Kind, protoreflect.Fixed64Kind:
+						k = protoreflect.ValueOfUint64(uint64(n)).MapKey()
+					case protoreflect.BoolKind:
+						k = protoreflect.ValueOfBool(n%2 == 0).MapKey()
+						if n > 102 {
+							return // both keys taken
+						}
+					default:
 						k = protoreflect.ValueOfInt32(n).MapKey()
 					}
 					if !mm.Has(k) {
@@ -313,10 +327,14 @@ func zeroOf(fd protoreflect.FieldDescriptor) protoreflect.Value {
 		return protoreflect.ValueOfUint32(0)
 	case protoreflect.Uint64Kind, protoreflect.Fixed64Kind:
 		return protoreflect.ValueOfUint64(0)
+	case protoreflect.FloatKind:
+		return protoreflect.ValueOfFloat32(0)
+	case protoreflect.DoubleKind:
+		return protoreflect.ValueOfFloat64(0)
 	case protoreflect.BytesKind:
 		return protoreflect.ValueOfBytes(nil)
 	}
-	panic("unhandled kind " + fd.Kind().String())
+	panic("HARNESS-SELFTEST unhandled kind " + fd.Kind().String())
 }
 
 // Apply mutates the leaf.
@@ -352,10 +370,14 @@ func changed(t *rapid.T, fd protoreflect.FieldDescriptor, old protoreflect.Value
 		return protoreflect.ValueOfUint32(uint32(old.Uint()) + uint32(rapid.IntRange(1, 5).Draw(t, "chgi")))
 	case protoreflect.Uint64Kind, protoreflect.Fixed64Kind:
 		return protoreflect.ValueOfUint64(old.Uint() + uint64(rapid.IntRange(1, 5).Draw(t, "chgi")))
+	case protoreflect.FloatKind:
+		return protoreflect.ValueOfFloat32(float32(old.Float()) + float32(rapid.IntRange(1, 5).Draw(t, "chgi")))
+	case protoreflect.DoubleKind:
+		return protoreflect.ValueOfFloat64(old.Float() + float64(rapid.IntRange(1, 5).Draw(t, "chgi")))
 	case protoreflect.BytesKind:
 		return protoreflect.ValueOfBytes(append(append([]byte{}, old.Bytes()...), 1))
 	}
-	panic("unhandled kind " + fd.Kind().String())
+	panic("HARNESS-SELFTEST unhandled kind " + fd.Kind().String())
 }
 
 // ---------------------------------------------------------------------------------------------
